@@ -28,7 +28,11 @@ def instances(tier):
     out.append(Instance("C05", "c01:u_mux", dict(k=2, form="const", phase="unlisted", rs_list=True, offs="00")))
     for sid, sh in shapes.mux_shapes().items():
         out.append(Instance("C05", "sys_common:s_run", dict(shape=sh, oracle="c05"), name="S/" + sid, uf=True, cover=["solved"], weight=20))
-    for sid in ("mux-inactive", "mux-input-inactive", "mux-src-inactive"):
+    allph = shapes.S(shapes.N("S1", "Source", phases=["a"], only=()), shapes.N("S2", "Source", only=()), shapes.N("C", "Converter", "S2", only=()),
+                     shapes.N("M", "PMux", ["S1", "C"], only=("rs",)), shapes.N("L", "ILoad", "M", only=()), phases=["a", "b"])
+    out.append(Instance("C05", "sys_common:s_run", dict(shape=allph, oracle="c05"), name="S/all-phases/mux-source-changes", uf=True,
+                        cover=["solved"], weight=30))
+    for sid in ("mux-inactive", "mux-input-inactive", "mux-src-inactive", "mux-inactive-first-dead"):
         sh = shapes.phase_shapes()[sid]
         for ph in sh["phases"]:
             out.append(Instance("C05", "sys_common:s_run", dict(shape=sh, oracle="c05", opts={"phase": ph}),
